@@ -15,6 +15,9 @@ theorem after_terminator_ignored (r : RS) (ls : List Str) (h : r.block ≥ 3) : 
     have : stepLine r l = r := by simp [stepLine, h]
     simp [List.foldl_cons, this, ih]
 
+theorem closeCur_block (r : RS) : (closeCur r).block = r.block := by
+  unfold closeCur; split <;> rfl
+
 /-- The block counter never decreases, and only a blank line advances it. -/
 theorem stepLine_block (r : RS) (ln : Str) :
     (stepLine r ln).block = r.block ∨ (isBlankLine ln = true ∧ (stepLine r ln).block = r.block + 1) := by
@@ -23,20 +26,13 @@ theorem stepLine_block (r : RS) (ln : Str) :
   · exact Or.inl rfl
   · split
     · rename_i hb
-      right
-      refine ⟨hb, ?_⟩
-      simp only [closeCur]
-      split <;> rfl
-    · split
-      · split <;> exact Or.inl rfl
-      · simp only []
-        split
-        · split
-          · exact Or.inl rfl
-          · left
-            simp only [closeCur]
-            split <;> rfl
-        · exact Or.inl rfl
+      exact Or.inr ⟨hb, by simp [closeCur_block]⟩
+    · left
+      split
+      · split
+        · rfl
+        · simp [closeCur_block]
+      · split <;> rfl
 
 /-- A comment card never contributes data: it leaves the text of the open card and the finished cards alone. -/
 theorem comment_card_no_data (r : RS) (ln : Str) (hb : r.block < 3) (hnb : isBlankLine ln = false)
@@ -44,10 +40,10 @@ theorem comment_card_no_data (r : RS) (ln : Str) (hb : r.block < 3) (hnb : isBla
     (stepLine r ln).done = r.done ∧ (stepLine r ln).cur.map (·.text) = r.cur.map (·.text) := by
   unfold stepLine
   have h3 : ¬ r.block ≥ 3 := by omega
-  simp only [h3, if_false, hnb, hc, if_true, Bool.false_eq_true]
+  simp only [h3, if_false, hnb, hc, if_true, Bool.false_eq_true, Bool.true_or]
   split
   · rename_i c hcur
-    simp [hcur]
+    simp [hcur, contStep, hc]
   · rename_i hcur
     simp [hcur]
 
